@@ -25,6 +25,7 @@ sys.path.insert(0, os.path.join(os.path.dirname(os.path.abspath(__file__)), ".."
 import recovery_common as rc  # noqa: E402
 
 REQUIRED = [
+    "via:cmd", "via:connect",
     "state:no-stream(meta-expired-or-never)", "state:empty-top0", "state:cleared-top-kept(expired-or-removed)",
     "state:trimmed", "state:full", "req:no-recovery", "req:auto", "req:client-recover",
     "filters:exclude-all-scanned", "filters:exclude-newest-only", "filters:newest-visible", "filters:none",
